@@ -559,7 +559,7 @@ func c08Conc(e *env) {
 			if c.Kind == "malformed" {
 				hdr = []byte("PROXY TCP4 192.168.10.x 192.168.10.30 1234 5678\r\n")
 			}
-			payload := []byte("hello-payload")
+			payload := []byte("hello-payload-0123456789-abcdefghijklmnopqrstuvwxyz-ABCDEFGHIJKLMNOP")
 			data := append(append([]byte{}, hdr...), payload...)
 			sc := newSconn(nil, false)
 			fl := newChanListener()
